@@ -25,6 +25,7 @@ type Enc struct {
 	cntSeen    map[string]bool
 	foldDefs   []string        // SMT definitions of user fold functions used (step function + declaration), in first-use order
 	foldSeen   map[string]bool
+	orbitLemmas map[string]string // lemma name -> SMT script that must be unsat
 }
 
 // Probe is a labelled term whose model value is wanted for replay.
